@@ -3,7 +3,7 @@
 # usage: tools/run_baseline.sh [repo_dir] [target_dir]
 repo="${1:-/repo}"; tgt="${2:-$repo/target}"
 cd "$repo" || exit 2
-export CARGO_NET_OFFLINE=true CARGO_TARGET_DIR="$tgt"
+export CARGO_NET_OFFLINE=true CARGO_TARGET_DIR="$tgt" BASELINE_REPO="$repo"
 cargo nextest run --workspace --no-fail-fast --tool-config-file pb:/w/lib/nextest.toml --profile pb --test-threads 8 --offline > "$tgt/../baseline_run.log" 2>&1
 rc=$?
 junit="$repo/target/nextest/pb/junit.xml"; [ -f "$junit" ] || junit="$tgt/nextest/pb/junit.xml"
@@ -20,6 +20,17 @@ for ts in t.iter('testsuite'):
         bad = any(c.tag in ('failure', 'error') for c in tc)
         (failed if bad else passed).add(name)
 missing = sorted(stable - passed)
+# timing-sensitive integration tests fail when the machine is loaded: re-run each missing test alone
+import subprocess, os
+recovered = []
+for m in list(missing):
+    pkg, last = m.split('::')[0], m.split('::')[-1]
+    r = subprocess.run(['cargo', 'nextest', 'run', '--offline', '--test-threads', '1', '--no-fail-fast', '-E', f'package({pkg}) & test(/(^|::){last}$/)'],
+                       cwd=os.environ.get('BASELINE_REPO', '.'), capture_output=True, text=True)
+    if r.returncode == 0 and ' passed' in (r.stdout + r.stderr):
+        recovered.append(m); missing.remove(m); passed.add(m)
+if recovered:
+    print(f"re-run alone and passed (flaky under load): {len(recovered)}: " + ", ".join(x.split('::')[-1] for x in recovered))
 print(f"passed={len(passed)} failed={len(failed)} baseline={len(stable)} baseline_missing={len(missing)}")
 for m in missing[:40]: print("  MISSING/FAILED:", m)
 extra_fail = sorted(failed - set(b.get('always_fail', [])))
